@@ -200,7 +200,10 @@ let () =
        let rec run st rs macc sacc = (match rs with
          | [] -> (List.rev macc, List.rev sacc)
          | r :: rest ->
-           if string_of_z r = "-2" then
+           if string_of_z r = "-3" then
+             (* the view is cloned and the history continues on the clone: whatever a clone carries over, it answers like the original *)
+             run st rest ("cloned" :: macc) ("cloned" :: sacc)
+           else if string_of_z r = "-2" then
              (* lines(): get_line(0), get_line(1), ... until the first None *)
              let rec all st i acc = (match get_line src (z_small i) st with
                | Ok (st', Some l) -> all st' (i + 1) (hex_of_bytes l :: acc)
@@ -303,12 +306,14 @@ let () =
        let sm = ref (Ok sm0) in
        (* the simple specification state: raw names, root, contents *)
        let raw = ref (Array.of_list sm0.sm_sources) and root = ref sm0.sm_root and oob = ref false in
+       let conts = Array.of_list (List.mapi (fun i _ -> opt_hex' (get_source_contents sm0 (z_small i))) sm0.sm_sources) in
        List.iter (fun op -> match !sm with
          | Ok mm -> (match String.split_on_char ':' op with
              | ["r"; r] -> sm := Ok (set_source_root (opt_of r) mm); root := opt_of r
              | ["s"; i; v] -> sm := set_source (z_of_string i) (bytes_of_hex (unq v)) mm;
                               let k = int_of_string i in if k < Array.length !raw then (!raw).(k) <- bytes_of_hex (unq v) else oob := true
-             | ["c"; i; v] -> sm := set_source_contents (z_of_string i) (opt_of v) mm
+             | ["c"; i; v] -> sm := set_source_contents (z_of_string i) (opt_of v) mm;
+                              let k = int_of_string i in if k < Array.length conts then conts.(k) <- opt_hex' (opt_of v) else oob := true
              | _ -> failwith "bad op")
          | _ -> ()) (split_list (String.concat "," (String.split_on_char ';' ops)));
        let mo = show_map_outcome !sm in
@@ -317,6 +322,7 @@ let () =
        let prop = (if !oob then None (* set_source past the end: outside the property *)
          else if String.length impl < 3 || String.sub impl 0 3 <> "ok " then Some false
          else (match String.split_on_char '|' (String.sub impl 3 (String.length impl - 3)) with
+           | _ :: got :: _ :: got_conts :: _ when got_conts <> String.concat "," (Array.to_list conts) -> Some false   (* the contents a source reports are the last ones set for it *)
            | _ :: got :: _ ->
              let want = String.concat "," (List.map (fun r -> "=" ^ hex_of_bytes (spec_join !root r)) (Array.to_list !raw)) in
              let want_written = opt_hex' (match !root with Some [] -> None | x -> x) ^ "|" ^ String.concat "," (List.map (fun r -> "=" ^ hex_of_bytes r) (Array.to_list !raw)) in
